@@ -2165,24 +2165,25 @@ theorem evictLruLoop_progress {p : Params} (hq : NoQuirks p) (wte : Nat) :
 /-- After `Inner::sync` from a reachable state (one thread: nothing is pending once the
 queues are drained) the published weighted size is within the capacity, unless the LRU
 eviction removed a full batch of entries. -/
-theorem syncRun_weight {p : Params} (hq : NoQuirks p) (hsm : SmallSketch p) {s : SState}
-    (h : TInv p s []) {c : Nat} (hcap : p.cap = some c) :
+theorem syncRun_weight_gen {p : Params} (hq : NoQuirks p) (hsm : SmallSketch p) {s : SState}
+    (ht : TopInv Sketch.Good s) (hc : CTop p s (s.writeQ ++ [])) {c : Nat}
+    (hcap : p.cap = some c) :
     (syncRun p s).ws ≤ c ∨
       (syncRun p s).map.length + Gen.SYNC_EVICTION_BATCH_SIZE ≤ s.map.length := by
   unfold syncRun
   dsimp only
   have h0 : RunInv Sketch.Good { s with cec := s.ec, cws := s.ws } :=
-    ⟨⟨⟨h.top.nodes.toNodesCore.congr (fun _ => rfl) (fun _ => rfl) (fun _ => rfl)
-        (List.Perm.refl _) (List.Perm.refl _) (Nat.le_refl _), h.top.nodes.count⟩, h.top.nofault⟩,
-     ⟨h.top.map.kn, h.top.map.bound⟩, ⟨h.top.sk.sk, h.top.sk.skOff⟩⟩
-  have h1 := syncLoop_g sketchLaws hq hsm [] (Gen.MAX_SYNC_REPEATS + 1) _ h0 h.c
+    ⟨⟨⟨ht.nodes.toNodesCore.congr (fun _ => rfl) (fun _ => rfl) (fun _ => rfl)
+        (List.Perm.refl _) (List.Perm.refl _) (Nat.le_refl _), ht.nodes.count⟩, ht.nofault⟩,
+     ⟨ht.map.kn, ht.map.bound⟩, ⟨ht.sk.sk, ht.sk.skOff⟩⟩
+  have h1 := syncLoop_g sketchLaws hq hsm [] (Gen.MAX_SYNC_REPEATS + 1) _ h0 hc
   have hq1 := (syncLoop_queues p Gen.MAX_SYNC_REPEATS { s with cec := s.ec, cws := s.ws }).1
   have hf1 := syncLoop_frame hq (Gen.MAX_SYNC_REPEATS + 1) { s with cec := s.ec, cws := s.ws }
   generalize syncLoop p (Gen.MAX_SYNC_REPEATS + 1) { s with cec := s.ec, cws := s.ws } = s1
     at h1 hq1 hf1 ⊢
   rw [hq1, List.nil_append] at h1
   have hl1 : s1.map.length ≤ s.map.length :=
-    frame_map_length (s := { s with cec := s.ec, cws := s.ws }) hf1 h.top.map.kn
+    frame_map_length (s := { s with cec := s.ec, cws := s.ws }) hf1 ht.map.kn
   have g1 : G p s1 [] := ⟨h1.1.safe, h1.1.map, h1.2⟩
   have g2 : G p (if (p.hasExpiry || s1.va.isSome) = true then evictExpired p s1 else s1) [] ∧
       (if (p.hasExpiry || s1.va.isSome) = true then evictExpired p s1 else s1).map.length
@@ -2215,6 +2216,12 @@ theorem syncRun_weight {p : Params} (hq : NoQuirks p) (hsm : SmallSketch p) {s :
     show s2.cws ≤ c
     rw [hwte] at hpos
     omega
+
+theorem syncRun_weight {p : Params} (hq : NoQuirks p) (hsm : SmallSketch p) {s : SState}
+    (h : TInv p s []) {c : Nat} (hcap : p.cap = some c) :
+    (syncRun p s).ws ≤ c ∨
+      (syncRun p s).map.length + Gen.SYNC_EVICTION_BATCH_SIZE ≤ s.map.length :=
+  syncRun_weight_gen hq hsm h.top h.c hcap
 
 /-! ### the number of entries is bounded by the number of `insert` calls -/
 
